@@ -31,6 +31,7 @@ type c19Case struct {
 	Triple  []Loc    `json:"triple,omitempty"`
 	// cli-select: gts select [-v] [-s strand] Sels... on a record that holds Table
 	Sels   []string `json:"sels,omitempty"`
+	More   int      `json:"more,omitempty"` // cli-select: further records in the stream (thinned-out copies of the table)
 	Invert bool     `json:"invert,omitempty"`
 	Strand string   `json:"strand,omitempty"`
 }
@@ -273,40 +274,58 @@ func c19CliSelect(c c19Case) *Violation {
 	what := fmt.Sprintf("gts %q on %s", args, tableString(featsToGts(table)))
 	env := newCliEnv()
 	defer env.remove()
-	res := env.run(args, smallRecord("SEL", false, 12, table), false)
+	// the stream holds the record and c.More further records with thinned-out copies of its table (record k lacks every
+	// feature whose index is a multiple of k+2; record 3 has no table at all): each is selected from by itself
+	tables := [][]Feat{table}
+	for k := 1; k <= c.More; k++ {
+		var sub []Feat
+		for i, f := range table {
+			if i%(k+1) != 0 && k < 3 {
+				sub = append(sub, f)
+			}
+		}
+		tables = append(tables, sub)
+	}
+	var stream []byte
+	for k, tb := range tables {
+		stream = append(stream, smallRecord(fmt.Sprintf("SEL%d", k), false, 12, tb)...)
+	}
+	res := env.run(args, stream, false)
 	if res.Exit != 0 {
 		return viol("cli-exit", "%s: exit %d (%s)", what, res.Exit, clipStr(res.Stderr, 200))
 	}
 	recs, errText, pi := readGenBank(string(res.Out))
-	if pi != nil || errText != "" || len(recs) != 1 {
-		return viol("cli-output", "%s: output is not one GenBank record (%d records, error %q)", what, len(recs), errText)
+	if pi != nil || errText != "" || len(recs) != len(tables) {
+		return viol("cli-output", "%s: output is not %d GenBank record(s) (%d records, error %q)", what, len(tables), len(recs), errText)
 	}
-	var want []string
-	for _, f := range table {
-		fwd, rev := refStrand(f.Loc)
-		if (c.Strand == "forward" && !fwd) || (c.Strand == "reverse" && !rev) {
-			continue
-		}
-		hit := len(c.Sels) == 0
-		for _, sel := range c.Sels {
-			key, clauses, err := refSelector(sel)
-			if err != nil {
-				panic("harness: cli-select drew an invalid selector " + sel)
+	for k, tb := range tables {
+		var want []string
+		for _, f := range tb {
+			fwd, rev := refStrand(f.Loc)
+			if (c.Strand == "forward" && !fwd) || (c.Strand == "reverse" && !rev) {
+				continue
 			}
-			if refAccept(key, clauses, f) {
-				hit = true
+			hit := len(c.Sels) == 0
+			for _, sel := range c.Sels {
+				key, clauses, err := refSelector(sel)
+				if err != nil {
+					panic("harness: cli-select drew an invalid selector " + sel)
+				}
+				if refAccept(key, clauses, f) {
+					hit = true
+				}
+			}
+			if f.Key == "source" || hit != c.Invert {
+				want = append(want, f.Key+":"+f.label())
 			}
 		}
-		if f.Key == "source" || hit != c.Invert {
-			want = append(want, f.Key+":"+f.label())
+		var got []string
+		for _, f := range recs[k].Features() {
+			got = append(got, f.Key+":"+labelOf(f))
 		}
-	}
-	var got []string
-	for _, f := range recs[0].Features() {
-		got = append(got, f.Key+":"+labelOf(f))
-	}
-	if fmt.Sprint(got) != fmt.Sprint(want) {
-		return viol("cli-select", "%s: wrote %v, want %v", what, got, want)
+		if fmt.Sprint(got) != fmt.Sprint(want) {
+			return viol("cli-select", "%s: record %d of %d wrote %v, want %v", what, k+1, len(tables), got, want)
+		}
 	}
 	return nil
 }
@@ -699,7 +718,7 @@ func c19Gen(t *rapid.T) c19Case {
 				table[i].Key = "source"
 			}
 		}
-		c := c19Case{Mode: "cli-select", Table: table, Invert: rapid.Bool().Draw(t, "invert"), Strand: rapid.SampledFrom([]string{"", "", "both", "forward", "reverse"}).Draw(t, "strand")}
+		c := c19Case{Mode: "cli-select", More: rapid.SampledFrom([]int{0, 0, 1, 2, 3}).Draw(t, "more"), Table: table, Invert: rapid.Bool().Draw(t, "invert"), Strand: rapid.SampledFrom([]string{"", "", "both", "forward", "reverse"}).Draw(t, "strand")}
 		for k := rapid.IntRange(0, 3).Draw(t, "nsel"); k > 0; k-- {
 			if sel := c19GenSelector(t, false); sel != "" && !strings.HasPrefix(sel, "-") {
 				c.Sels = append(c.Sels, sel)
